@@ -350,8 +350,9 @@ func isNilCheck(cond ssa.Value, pred func(ssa.Value) bool) (ne bool, ok bool) {
 func fmtSite(parts ...string) string { return strings.Join(parts, "/") }
 
 func short(s string, n int) string {
-	if len(s) > n {
-		return s[:n] + "…"
+	r := []rune(s)
+	if len(r) > n {
+		return string(r[:n]) + "…"
 	}
 	return s
 }
